@@ -384,6 +384,41 @@ def _flat_arrays(dec):
     return out
 
 
+FIXED_FORMS = ("list", "tuple", "set", "range", "npints", "iter", "map", "gen", "reversed", "dictkeys", "ndarray")
+
+
+def _fixed_form(cfg):
+    """The fixed modes in the spelling the configuration asks for: any iterable of integers names the same SET of modes.
+    One-shot iterators (iter / map / generator / reversed) can be walked through exactly once."""
+    fx = list(cfg.get("fixed", []))
+    if not fx:
+        return None
+    form = cfg.get("fixed_form", "list")
+    if form == "list":
+        return fx
+    if form == "tuple":
+        return tuple(fx)
+    if form == "set":
+        return set(fx)
+    if form == "range":
+        return range(min(fx), max(fx) + 1) if sorted(fx) == list(range(min(fx), max(fx) + 1)) else fx
+    if form == "npints":
+        return [np.int64(m) for m in fx]
+    if form == "iter":
+        return iter(fx)
+    if form == "map":
+        return map(int, [str(m) for m in fx])
+    if form == "gen":
+        return (m for m in fx)
+    if form == "reversed":
+        return reversed(fx[::-1])
+    if form == "dictkeys":
+        return {m: None for m in fx}.keys()
+    if form == "ndarray":
+        return np.array(fx)
+    raise ValueError(form)
+
+
 class _ViaWrapper:
     """Stands in for tensorly.decomposition: routes the functional call through the class wrapper (fit_transform + errors_)."""
 
@@ -396,7 +431,7 @@ class _ViaWrapper:
         D = self.D
         table = {"parafac": "CP", "non_negative_parafac": "CP_NN", "non_negative_parafac_hals": "CP_NN_HALS",
                  "constrained_parafac": "ConstrainedCP", "non_negative_tucker": "Tucker_NN", "non_negative_tucker_hals": "Tucker_NN_HALS",
-                 "parafac2": "Parafac2", "randomised_parafac": "RandomizedCP"}
+                 "parafac2": "Parafac2", "randomised_parafac": "RandomizedCP", "tucker": "Tucker"}
         if fname not in table:
             return getattr(D, fname)
         cls = getattr(D, table[fname], None)
@@ -405,7 +440,7 @@ class _ViaWrapper:
             cls = getattr(_tucker, table[fname])
 
         def call(data, rank, **kw):
-            kw.pop("return_errors", None)
+            want_errs = kw.pop("return_errors", None)
             accepted = set(inspect.signature(cls.__init__).parameters)
             dropped = {k: v for k, v in kw.items() if k not in accepted}
             for k, v in dropped.items():      # an option the wrapper does not offer: only proceed if it is at its default
@@ -414,7 +449,7 @@ class _ViaWrapper:
                 if v not in (None, False, 0):
                     raise NotImplementedError("wrapper %s has no option %s" % (cls.__name__, k))
             extra = {}
-            if "return_errors" in accepted:
+            if "return_errors" in accepted and cls.__name__ != "Tucker":      # (Tucker hands the pair back instead of storing errors_)
                 extra["return_errors"] = True
             if "verbose" in accepted:
                 extra["verbose"] = False
@@ -443,7 +478,8 @@ class _ViaWrapper:
                 same = False
             if not same:
                 raise StaleWrapperAttribute("decomposition_ is not the decomposition fit_transform returned")
-            return dec, list(est.errors_)
+            errs = list(est.errors_) if hasattr(est, "errors_") else None
+            return (dec, errs) if want_errs else dec
         return call
 
 
@@ -473,7 +509,7 @@ def _run_alg(cfg, data, cap, with_cb, tl, D):
         rank = np.int64(rank) if isinstance(rank, int) else [np.int64(r) for r in rank]
     cbs = []
     out = {"errs": None, "cbs": cbs, "extra": {}}
-    fixed = list(cfg.get("fixed", [])) or None
+    fixed = _fixed_form(cfg)
     if alg in ("parafac", "nn_parafac", "nn_parafac_hals", "constrained_parafac", "rand_parafac"):
         init, rawinit = _init_arg(cfg)
         out["rawinit"] = rawinit
@@ -591,7 +627,7 @@ def _run_alg(cfg, data, cap, with_cb, tl, D):
                 # missing entries: the start is still exactly the supplied Tucker tensor
                 kw["mask"] = (_rng(seed + 99).random_sample(data.shape) > 0.2).astype(float)
             if cfg.get("fixed"):
-                kw["fixed_factors"] = list(cfg["fixed"])
+                kw["fixed_factors"] = _fixed_form(cfg)
                 kw.pop("return_errors")
                 dec = D.tucker(data, rank, **kw)
                 errs = None
@@ -1544,6 +1580,32 @@ def warm_configs(tier, seed):
     for fx in ([0], [1], [0, 1], [2]):
         add("nn_tucker_hals", shape=shape, rank=[2, 2, 2], data="nonneg", tol="zero", algorithm="fista", fixed=fx, caps=[0, 1, 2])
     add("nn_tucker", shape=shape, rank=[2, 2, 2], data="nonneg", tol="zero", caps=[0, 1, 2])
+    # the SPELLING of the fixed modes: any iterable of integers names the same set of modes (tuple, set, range, NumPy integers,
+    # a dictionary view, an array -- and one-shot iterators: iter(...), map(int, ...), a generator expression, reversed(...),
+    # which a routine may walk through exactly once), for every routine that takes fixed modes
+    fixed_algs = (("parafac", {"data": "generic", "tol": "zero"}), ("nn_parafac", {"data": "nonneg", "init_kind": "nonneg", "tol": "tiny"}),
+                  ("nn_parafac_hals", {"data": "nonneg", "init_kind": "nonneg", "tol": "tiny"}),
+                  ("constrained_parafac", {"data": "nonneg", "init_kind": "nonneg", "tol": "zero", "constraints": {"non_negative": True}}))
+    for j, form in enumerate(FIXED_FORMS[1:]):
+        for a_i, (alg, kw) in enumerate(fixed_algs):
+            fx = [[0, 1], [1], [0], [1, 2], [0, 2]][(j + a_i) % 5]
+            add(alg, **dict(kw, shape=shape, rank=2, init_weights="none", fixed=fx, fixed_form=form, caps=[0, 1, 2, 3]))
+        if form != "ndarray":       # ("int list": `if fixed_factors:` has no meaning for an array)
+            add("tucker", shape=shape, rank=[2, 3, 2], data="generic", tol="zero", fixed=[[0, 1], [1], [2, 0]][j % 3], fixed_form=form, caps=[0, 1, 2])
+        add("nn_tucker_hals", shape=shape, rank=[2, 2, 2], data="nonneg", tol="zero", algorithm="fista", fixed=[[0, 1], [1], [0]][j % 3],
+            fixed_form=form, caps=[0, 1, 2])
+    # the CLASS interface (CP, CP_NN, CP_NN_HALS, ConstrainedCP, Tucker, Tucker_NN, Tucker_NN_HALS, Parafac2) with the same budgets,
+    # zero included: an estimator built with n_iter_max=0 evaluates the warm start and does not iterate
+    for alg, kw in fixed_algs:
+        for fx, wk in (([], "positive"), ([0], "none"), ([0, 1, 2], "none")):
+            add(alg, **dict(kw, shape=shape, rank=2, init_weights=wk, fixed=fx, wrapper=True, caps=[0, 1, 2]))
+    for fx in ([], [0], [1, 2]):
+        add("tucker", shape=shape, rank=[2, 3, 2], data="generic", tol="zero", fixed=fx, wrapper=True, caps=[0, 1, 2])
+        add("nn_tucker_hals", shape=shape, rank=[2, 2, 2], data="nonneg", tol="zero", algorithm="fista", fixed=fx, wrapper=True, caps=[0, 1, 2])
+    add("nn_tucker", shape=shape, rank=[2, 2, 2], data="nonneg", tol="zero", wrapper=True, caps=[0, 1, 2])
+    for wk in ("none", "positive"):
+        add("parafac2", shape=[3, 0, 4], rows=[4, 5, 4], rank=2, data="generic", init_weights=wk, init_as="parafac2", tol="tiny", wrapper=True,
+            caps=[0, 1, 2])
     # PARAFAC2 from a PARAFAC2 tensor and from a CP tensor
     for wk in ("none", "ones", "positive", "mixed"):
         for init_as in ("parafac2", "cp"):
